@@ -1060,6 +1060,235 @@ theorem extraG_after_witness :
 
 end extrawitness
 
+/-! ### order of the solutes in the curvature driving-force method (round 5)
+
+Two listings of the same alloy: listing `i` has sort indices `sᵢ` and the user writes the composition `xᵢ`; they describe
+the same alloy iff the alphabetical compositions coincide, `reorder s₁ x₁ = reorder s₂ x₂`.  The sampling method does its
+own sorting: in listing `i` it computes `S (reorder sᵢ x)` for one function `S` of the alphabetical composition (backend
+hypothesis, monitored: key `df-differs-between-solute-orders:sampling`). -/
+
+section solute_order
+variable {α ρ : Type}
+
+/-- the code: the driving force of the curvature method does not depend on the order in which the solutes are listed,
+on either side of the phase boundary -/
+theorem dfCurvature_listing_invariant (two : Bool) (S C : (Nat → α) → ρ) (s₁ s₂ : Nat → Nat) (x₁ x₂ : Nat → α)
+    (hsame : reorder s₁ x₁ = reorder s₂ x₂) :
+    dfCurvature two (fun x => S (reorder s₁ x)) C s₁ x₁ = dfCurvature two (fun x => S (reorder s₂ x)) C s₂ x₂ := by
+  unfold dfCurvature
+  cases two <;> simp [hsame]
+
+/-- in particular it is a function of the alphabetical composition alone -/
+theorem dfCurvature_eq_canonical (two : Bool) (S C : (Nat → α) → ρ) (s : Nat → Nat) (x : Nat → α) :
+    dfCurvature two (fun x => S (reorder s x)) C s x = if two then C (reorder s x) else S (reorder s x) := by
+  unfold dfCurvature; rfl
+
+/-- the variant that sorts first hands the fallback a composition that was sorted TWICE -/
+theorem sortedFirst_fallback_sorted_twice (S C : (Nat → α) → ρ) (s : Nat → Nat) (x : Nat → α) :
+    dfCurvatureSortedFirst false (fun x => S (reorder s x)) C s x = S (reorder s (reorder s x)) := by
+  unfold dfCurvatureSortedFirst; rfl
+
+/-- … which is invisible when the solutes are listed alphabetically (`s = id`) and on the two-phase side -/
+theorem sortedFirst_eq_of_alphabetical (two : Bool) (F C : (Nat → α) → ρ) (x : Nat → α) :
+    dfCurvatureSortedFirst two F C id x = dfCurvature two F C id x := by
+  unfold dfCurvatureSortedFirst dfCurvature reorder; cases two <;> rfl
+
+theorem sortedFirst_eq_of_twoPhase (F C : (Nat → α) → ρ) (s : Nat → Nat) (x : Nat → α) :
+    dfCurvatureSortedFirst true F C s x = dfCurvature true F C s x := by
+  unfold dfCurvatureSortedFirst dfCurvature; rfl
+
+end solute_order
+
+/-- witness: two solutes listed against the alphabet (`s` swaps 0 and 1), unequal contents (15 % and 2 %), under-saturated
+side (fallback): the code evaluates the sampling function at the alloy, the sort-first variant at the alloy with the two
+solute contents exchanged (`S` reads the content of the alphabetically first solute) -/
+theorem sortedFirst_witness :
+    let s : Nat → Nat := fun i => 1 - i
+    let x : Nat → ℚ := fun i => if i = 0 then 15 / 100 else 2 / 100
+    let S : (Nat → ℚ) → ℚ := fun y => y 0
+    dfCurvature false (fun x => S (reorder s x)) S s x = 2 / 100 ∧
+    dfCurvatureSortedFirst false (fun x => S (reorder s x)) S s x = 15 / 100 := by
+  simp [dfCurvature, dfCurvatureSortedFirst, reorder]
+
+/-! ### parameter histories of the nucleation barrier (round 5): cached factors after ANY history equal those of a
+fresh object, provided every setter clears every cache (`Gen.C12.fclears`, regenerated, does: `fclears_all`) -/
+
+section nuchist
+open KawinV.NucHist
+open KawinV.Gen.C12 (Fac CacheId FSetter fclears)
+variable {α ρ : Type} [Mul α] [Div α] [OfNat α 2] [LT α] [DecidableLT α]
+
+/-- the regenerated invalidation table clears every cache for every setter -/
+theorem fclears_all : ∀ (s : FSetter) (c : CacheId), fclears s c = true := by
+  intro s c
+  cases s <;> cases c <;> first | rfl | (rename_i f; cases f <;> rfl)
+
+/-- every cached value is the value a fresh computation from the CURRENT settings gives (and a cached factor exists
+only if the current ratio passes `_validateGBk`) -/
+def Valid (F : Nat → Fac → α → ρ) (maxR : Nat → α) (o : Obj α ρ) : Prop :=
+  (∀ v, o.k = some v → v = ratio o.s) ∧
+  (∀ f v, o.fac f = some v → validK maxR o.s.site (ratio o.s) = true ∧ v = F o.s.site f (ratio o.s))
+
+theorem valid_fresh (F : Nat → Fac → α → ρ) (maxR : Nat → α) (s : Settings α) : Valid F maxR (fresh s : Obj α ρ) := by
+  constructor
+  · intro v h; simp [fresh] at h
+  · intro f v h; simp [fresh] at h
+
+theorem valid_of_empty (F : Nat → Fac → α → ρ) (maxR : Nat → α) (o : Obj α ρ) (hk : o.k = none) (hf : ∀ f, o.fac f = none) :
+    Valid F maxR o := by
+  constructor
+  · intro v h; rw [hk] at h; cases h
+  · intro f v h; rw [hf f] at h; cases h
+
+theorem clearBy_empty (clears : FSetter → CacheId → Bool) (hclr : ∀ s c, clears s c = true) (st : FSetter) (o : Obj α ρ) :
+    (clearBy clears st o).k = none ∧ ∀ f, (clearBy clears st o).fac f = none := by
+  constructor
+  · simp [clearBy, hclr]
+  · intro f; simp [clearBy, hclr]
+
+theorem getK_fst_of_valid (F : Nat → Fac → α → ρ) (maxR : Nat → α) (o : Obj α ρ) (h : Valid F maxR o) :
+    (getK o).1 = ratio o.s := by
+  unfold getK
+  cases hk : o.k with
+  | none => rfl
+  | some v => simp [h.1 v hk]
+
+theorem getK_snd_s (o : Obj α ρ) : (getK o).2.s = o.s := by
+  unfold getK; cases o.k <;> rfl
+
+theorem getK_snd_fac (o : Obj α ρ) : (getK o).2.fac = o.fac := by
+  unfold getK; cases o.k <;> rfl
+
+theorem valid_getK (F : Nat → Fac → α → ρ) (maxR : Nat → α) (o : Obj α ρ) (h : Valid F maxR o) :
+    Valid F maxR (getK o).2 := by
+  unfold getK
+  cases hk : o.k with
+  | none =>
+    constructor
+    · intro v hv; simp at hv; exact hv.symm
+    · intro f v hv; exact h.2 f v hv
+  | some w => simpa [hk] using h
+
+/-- what a factor getter answers on a valid object: the fresh computation from the current settings -/
+theorem get_fst_of_valid (F : Nat → Fac → α → ρ) (maxR : Nat → α) (o : Obj α ρ) (h : Valid F maxR o) (f : Fac) :
+    (NucHist.get F maxR o f).1 = if validK maxR o.s.site (ratio o.s) then some (F o.s.site f (ratio o.s)) else none := by
+  unfold NucHist.get
+  cases hf : o.fac f with
+  | some v =>
+    obtain ⟨hv, hval⟩ := h.2 f v hf
+    simp [hv, hval]
+  | none =>
+    simp only [getK_fst_of_valid F maxR o h]
+    by_cases hv : validK maxR o.s.site (ratio o.s) = true
+    · simp [hv]
+    · simp [hv]
+
+theorem get_snd_s (F : Nat → Fac → α → ρ) (maxR : Nat → α) (o : Obj α ρ) (f : Fac) : (NucHist.get F maxR o f).2.s = o.s := by
+  unfold NucHist.get
+  cases hf : o.fac f with
+  | some v => rfl
+  | none =>
+    by_cases hv : validK maxR o.s.site (getK o).1 = true
+    · simp [hv, getK_snd_s]
+    · simp [hv, getK_snd_s]
+
+theorem valid_get (F : Nat → Fac → α → ρ) (maxR : Nat → α) (o : Obj α ρ) (h : Valid F maxR o) (f : Fac) :
+    Valid F maxR (NucHist.get F maxR o f).2 := by
+  unfold NucHist.get
+  cases hf : o.fac f with
+  | some v => simpa using h
+  | none =>
+    have hk := getK_fst_of_valid F maxR o h
+    have hK := valid_getK F maxR o h
+    by_cases hv : validK maxR o.s.site (getK o).1 = true
+    · simp only [hv, if_true]
+      constructor
+      · intro v hv'; exact hK.1 v hv'
+      · intro g v hg
+        simp only [getK_snd_s] at hg ⊢
+        by_cases hgf : g = f
+        · subst hgf
+          simp at hg
+          refine ⟨by rw [← hk]; exact hv, ?_⟩
+          rw [← hg, hk]
+        · simp [hgf] at hg
+          have := hK.2 g v hg
+          simpa [getK_snd_s] using this
+    · simp only [hv]
+      simpa using hK
+
+/-- one operation keeps the invariant when every setter clears every cache -/
+theorem valid_step (clears : FSetter → CacheId → Bool) (hclr : ∀ s c, clears s c = true)
+    (F : Nat → Fac → α → ρ) (maxR : Nat → α) (o : Obj α ρ) (h : Valid F maxR o) (op : Op α) :
+    Valid F maxR (step clears F maxR o op) := by
+  cases op with
+  | setGamma v => exact valid_of_empty F maxR _ (clearBy_empty clears hclr _ _).1 (clearBy_empty clears hclr _ _).2
+  | setGb v => exact valid_of_empty F maxR _ (clearBy_empty clears hclr _ _).1 (clearBy_empty clears hclr _ _).2
+  | setSite d => exact valid_of_empty F maxR _ (clearBy_empty clears hclr _ _).1 (clearBy_empty clears hclr _ _).2
+  | getK => exact valid_getK F maxR o h
+  | get f => exact valid_get F maxR o h f
+
+theorem valid_run (clears : FSetter → CacheId → Bool) (hclr : ∀ s c, clears s c = true)
+    (F : Nat → Fac → α → ρ) (maxR : Nat → α) (ops : List (Op α)) (o : Obj α ρ) (h : Valid F maxR o) :
+    Valid F maxR (run clears F maxR ops o) := by
+  induction ops generalizing o with
+  | nil => exact h
+  | cons op rest ih => exact ih _ (valid_step clears hclr F maxR o h op)
+
+/-- **after any history the factors equal those of a fresh object configured with the final values** (and the
+`ValueError` of an invalid ratio is raised in exactly the same cases), when every setter clears every cache -/
+theorem factors_after_history_eq_fresh (clears : FSetter → CacheId → Bool) (hclr : ∀ s c, clears s c = true)
+    (F : Nat → Fac → α → ρ) (maxR : Nat → α) (ops : List (Op α)) (s₀ : Settings α) (f : Fac) :
+    (NucHist.get F maxR (run clears F maxR ops (fresh s₀)) f).1 =
+      (NucHist.get F maxR (fresh (run clears F maxR ops (fresh s₀ : Obj α ρ)).s) f).1 := by
+  have h := valid_run clears hclr F maxR ops (fresh s₀) (valid_fresh F maxR s₀)
+  rw [get_fst_of_valid F maxR _ h f, get_fst_of_valid F maxR _ (valid_fresh F maxR _) f]
+  rfl
+
+/-- the same for the cached ratio -/
+theorem ratio_after_history_eq_fresh (clears : FSetter → CacheId → Bool) (hclr : ∀ s c, clears s c = true)
+    (F : Nat → Fac → α → ρ) (maxR : Nat → α) (ops : List (Op α)) (s₀ : Settings α) :
+    (getK (run clears F maxR ops (fresh s₀ : Obj α ρ))).1 = ratio (run clears F maxR ops (fresh s₀ : Obj α ρ)).s :=
+  getK_fst_of_valid F maxR _ (valid_run clears hclr F maxR ops (fresh s₀) (valid_fresh F maxR s₀))
+
+/-- the code (regenerated table): every history -/
+theorem factors_after_history_eq_fresh_code (F : Nat → Fac → α → ρ) (maxR : Nat → α) (ops : List (Op α)) (s₀ : Settings α) (f : Fac) :
+    (NucHist.get F maxR (run fclears F maxR ops (fresh s₀)) f).1 =
+      (NucHist.get F maxR (fresh (run fclears F maxR ops (fresh s₀ : Obj α ρ)).s) f).1 :=
+  factors_after_history_eq_fresh fclears fclears_all F maxR ops s₀ f
+
+end nuchist
+
+/-- consequence for the grain-boundary critical radius `2 (a γ - r γ_gb) / (3 c dG)` of `NucleationBarrierParameters.Rcrit`:
+computed from factors that all belong to the CURRENT ratio `k` (Clemm-Fisher identity `a - 2 k r = 3 c`, C14) and
+`γ_gb = 2 k γ` it is `2 γ / dG` - the radius at which the Gibbs-Thomson energy equals the driving force - whatever the
+history of the parameter object was -/
+theorem gb_rcrit_of_consistent_factors {β : Type} [Field β] [LinearOrder β] [IsStrictOrderedRing β]
+    (a r c k γ dG : β) (hc : c ≠ 0) (hd : dG ≠ 0) (hid : a - 2 * k * r = 3 * c) :
+    2 * (a * γ - r * (2 * k * γ)) / (3 * c * dG) = 2 * γ / dG := by
+  have h : a * γ - r * (2 * k * γ) = 3 * c * γ := by rw [← hid]; ring
+  rw [h]; field_simp
+
+/-- witness (grain boundary, π set to 1): factors cached at the old ratio k = 1/2 (a = 2, r = 3/4, c = 5/12 satisfy the
+identity), grain-boundary energy changed so that the new ratio is 1/5: the formula gives 2.72 γ/dG, not 2 γ/dG -/
+theorem stale_factors_rcrit_witness :
+    (2 : ℚ) - 2 * (1 / 2) * (3 / 4) = 3 * (5 / 12) ∧
+    2 * ((2 : ℚ) * 1 - 3 / 4 * (2 * (1 / 5) * 1)) / (3 * (5 / 12) * 1) ≠ 2 * 1 / 1 := by
+  constructor <;> norm_num
+
+/-- witness for the state machine: the table in which the `gbEnergy` setter clears only the cached ratio; history
+`areaFactor; gbEnergy = 1/2; areaFactor` on an object constructed with γ = 1, γ_gb = 1 (factor function `F = k`, limit 1):
+the object answers with the factor of the OLD ratio 1/2, a fresh object with the final values answers 1/4 -/
+theorem ratioOnly_history_stale :
+    let F : Nat → KawinV.Gen.C12.Fac → ℚ → ℚ := fun _ _ k => k
+    let maxR : Nat → ℚ := fun _ => 1
+    let ops : List (KawinV.NucHist.Op ℚ) := [.get .area, .setGb (1 / 2), .get .area]
+    let o := KawinV.NucHist.run KawinV.NucHist.clearsRatioOnly F maxR ops (KawinV.NucHist.fresh ⟨1, 1, 2⟩)
+    (KawinV.NucHist.get F maxR o .area).1 = some (1 / 2) ∧
+    (KawinV.NucHist.get F maxR (KawinV.NucHist.fresh o.s) .area).1 = some (1 / 4) := by
+  norm_num [KawinV.NucHist.run, KawinV.NucHist.step, KawinV.NucHist.stepOut, KawinV.NucHist.get, KawinV.NucHist.getK,
+    KawinV.NucHist.clearBy, KawinV.NucHist.clearsRatioOnly, KawinV.NucHist.fresh, KawinV.NucHist.ratio, KawinV.NucHist.validK]
+
 /-! ### non-vacuity: the hypothesis sets are satisfiable -/
 
 section nonvacuity
@@ -1107,6 +1336,30 @@ example :
 
 /-- `tangent_GE_per_atom`: N ≠ 0 holds for the shipped descriptions (N = 1, N = 4) -/
 example : (4 : ℚ) ≠ 0 ∧ (1 : ℚ) ≠ 0 := by norm_num
+
+/-- two listings of one alloy: alphabetical (`s₁ = id`, x₁ = (2 %, 15 %)) and reversed (`s₂` swaps, x₂ = (15 %, 2 %)) -/
+example : ∀ i, i < 2 → reorder (id : Nat → Nat) (fun i => if i = 0 then (2 : ℚ) / 100 else 15 / 100) i
+    = reorder (fun i => 1 - i) (fun i => if i = 0 then (15 : ℚ) / 100 else 2 / 100) i := by
+  intro i hi
+  rcases i with _ | _ | i
+  · simp [reorder]
+  · simp [reorder]
+  · omega
+
+/-- the hypothesis of `factors_after_history_eq_fresh` is satisfiable: the regenerated table -/
+example : ∃ clears : KawinV.Gen.C12.FSetter → KawinV.Gen.C12.CacheId → Bool, ∀ s c, clears s c = true := ⟨_, fclears_all⟩
+
+/-- … and it is not vacuous: a history that fills caches, changes every setting and reads again (F = k, limit 1) -/
+example :
+    let F : Nat → KawinV.Gen.C12.Fac → ℚ → ℚ := fun _ _ k => k
+    let maxR : Nat → ℚ := fun _ => 1
+    let ops : List (KawinV.NucHist.Op ℚ) := [.get .area, .setGb (1 / 2), .get .area]
+    (KawinV.NucHist.get F maxR (KawinV.NucHist.run KawinV.Gen.C12.fclears F maxR ops (KawinV.NucHist.fresh ⟨1, 1, 2⟩)) .area).1 = some (1 / 4) := by
+  norm_num [KawinV.NucHist.run, KawinV.NucHist.step, KawinV.NucHist.stepOut, KawinV.NucHist.get, KawinV.NucHist.getK,
+    KawinV.NucHist.clearBy, KawinV.Gen.C12.fclears, KawinV.NucHist.fresh, KawinV.NucHist.ratio, KawinV.NucHist.validK]
+
+/-- `gb_rcrit_of_consistent_factors`: the grain-boundary factors at k = 1/2 (π set to 1) satisfy its hypotheses -/
+example : (5 / 12 : ℚ) ≠ 0 ∧ (2 : ℚ) - 2 * (1 / 2) * (3 / 4) = 3 * (5 / 12) := by constructor <;> norm_num
 
 end nonvacuity
 
